@@ -833,6 +833,17 @@ def run(ctx):
             ctx.sample(klass or case['kind'], case)
             evaluate(ctx, case)
 
+    def blocks(stream, n, size=500):
+        """Seeded draws come in blocks with a random stream each, and blocks (not cases) are dealt to the
+        workers: a worker generates only its share; the union over workers does not depend on their number."""
+        for b in range((n + size - 1) // size):
+            if ctx.mine(b):
+                yield ctx.rng('%s/%d' % (stream, b)), range(b * size, min(n, (b + 1) * size))
+
+    def take(case, klass=None):
+        ctx.sample(klass or case['kind'], case)
+        evaluate(ctx, case)
+
     # ================= EUI-64 =================
     for p, m, w in LITERAL_VECTORS:
         emit(dict(kind='eui-lit', prefix=p, mac=m, want=w))
@@ -848,15 +859,14 @@ def run(ctx):
         for pstyle in V6_STYLES:
             for mac in (0, M48, 1 << 41, 0x00163e334455, 0xabcdef012345):
                 emit(dict(kind='eui', addr=0x20010db8000a000b << 64, plen=64, pstyle=pstyle, mac=mac, mstyle=mstyle))
-    rng = ctx.rng('eui')
-    n = ctx.pick(20000, 400000)
-    for i in range(n):
-        addr, plen = random_prefix(rng, i)
-        mac = random_mac(rng)
-        mstyle = rng.choice(MAC_STYLES_MUST) if rng.random() < 0.9 else rng.choice(MAC_STYLES_ALT)
-        emit(dict(kind='eui', addr=addr, plen=plen, pstyle=rng.choice(V6_STYLES), mac=mac, mstyle=mstyle))
-        if i % 4 == 0:
-            emit(dict(kind='eui-inv', upper=rng.getrandbits(64), mac=random_mac(rng)))
+    for rng, span in blocks('eui', ctx.pick(20000, 400000)):
+        for i in span:
+            addr, plen = random_prefix(rng, i)
+            mac = random_mac(rng)
+            mstyle = rng.choice(MAC_STYLES_MUST) if rng.random() < 0.9 else rng.choice(MAC_STYLES_ALT)
+            take(dict(kind='eui', addr=addr, plen=plen, pstyle=rng.choice(V6_STYLES), mac=mac, mstyle=mstyle))
+            if i % 4 == 0:
+                take(dict(kind='eui-inv', upper=rng.getrandbits(64), mac=random_mac(rng)))
     # ---- rejection classes
     good_mac, good_prefix = '00:16:3e:33:44:55', '2001:db8::/64'
     for p in IPV4_PREFIXES:
@@ -869,27 +879,27 @@ def run(ctx):
             emit(dict(kind='eui-bad', prefix=p, mac=m, cls='malformed-mac', sub=sub), 'eui-bad/mac')
     for (p, _s), (m, _t) in itertools.product(BAD_PREFIXES[:8], BAD_MACS[:6]):
         emit(dict(kind='eui-bad', prefix=p, mac=m, cls='malformed-prefix', sub='both malformed'))
-    rb = ctx.rng('eui-bad')
-    for i in range(ctx.pick(4000, 60000)):
-        k = i % 3
-        mac = random_mac(rb)
-        if k == 0:
-            p = '.'.join(str(rb.choice([0, 1, 10, 127, 255, rb.randrange(256)])) for _ in range(4))
-            if rb.random() < 0.8:
-                m, sub = render_mac(mac, rb.choice(MAC_STYLES_MUST)), 'valid MAC'
+    for rb, span in blocks('eui-bad', ctx.pick(4000, 60000)):
+        for i in span:
+            k = i % 3
+            mac = random_mac(rb)
+            if k == 0:
+                p = '.'.join(str(rb.choice([0, 1, 10, 127, 255, rb.randrange(256)])) for _ in range(4))
+                if rb.random() < 0.8:
+                    m, sub = render_mac(mac, rb.choice(MAC_STYLES_MUST)), 'valid MAC'
+                else:
+                    m, sub = break_mac(rb, mac)[0], 'malformed MAC'
+                take(dict(kind='eui-bad', prefix=p, mac=m, cls='ipv4-prefix', sub=sub))
+            elif k == 1:
+                addr, plen = random_prefix(rb, i)
+                p, sub = break_prefix(rb, addr, 64 if plen is None else plen)
+                take(dict(kind='eui-bad', prefix=p, mac=render_mac(mac, rb.choice(MAC_STYLES_MUST)),
+                          cls='malformed-prefix', sub=sub))
             else:
-                m, sub = break_mac(rb, mac)[0], 'malformed MAC'
-            emit(dict(kind='eui-bad', prefix=p, mac=m, cls='ipv4-prefix', sub=sub))
-        elif k == 1:
-            addr, plen = random_prefix(rb, i)
-            p, sub = break_prefix(rb, addr, 64 if plen is None else plen)
-            emit(dict(kind='eui-bad', prefix=p, mac=render_mac(mac, rb.choice(MAC_STYLES_MUST)),
-                      cls='malformed-prefix', sub=sub))
-        else:
-            addr, plen = random_prefix(rb, i)
-            m, sub = break_mac(rb, mac)
-            emit(dict(kind='eui-bad', prefix=render_prefix(addr, plen, rb.choice(V6_STYLES)), mac=m,
-                      cls='malformed-mac', sub=sub))
+                addr, plen = random_prefix(rb, i)
+                m, sub = break_mac(rb, mac)
+                take(dict(kind='eui-bad', prefix=render_prefix(addr, plen, rb.choice(V6_STYLES)), mac=m,
+                          cls='malformed-mac', sub=sub))
     for p, m, cls in DONT_CARE_EUI:
         emit(dict(kind='eui-dc', prefix=p, mac=m, cls=cls), 'eui-dc')
 
@@ -925,25 +935,25 @@ def run(ctx):
         for port in port_space:
             emit(dict(kind='hp', host=host, family=fam, port=port, bracket='escape',
                       dmode='kw' if port % 2 else 'omit', default=4321 if port % 2 else None))
-    rh = ctx.rng('hostport')
     fams = ['name', 'ipv4', 'ipv6', 'ipv6-scoped']
-    for i in range(ctx.pick(24000, 480000)):
-        fam = fams[i % 4]
-        host = random_host(rh, fam)
-        r = rh.random()
-        if r < 0.2:
-            port = None
-        elif r < 0.4:
-            port = rh.choice([0, 1, 9, 10, 99, 100, 999, 1000, 1023, 1024, 9999, 10000, 65534, 65535])
-        else:
-            port = rh.randrange(65536)
-        dmode, dflt = rh.choice(DEFAULT_MODES)
-        if dmode != 'omit' and rh.random() < 0.5:
-            dflt = rh.randrange(65536)
-        bracket = 'escape'
-        if fam.startswith('ipv6') and rh.random() < 0.15:
-            bracket = 'manual' if port is not None or rh.random() < 0.5 else 'none'
-        emit(dict(kind='hp', host=host, family=fam, port=port, bracket=bracket, dmode=dmode, default=dflt))
+    for rh, span in blocks('hostport', ctx.pick(24000, 480000)):
+        for i in span:
+            fam = fams[i % 4]
+            host = random_host(rh, fam)
+            r = rh.random()
+            if r < 0.2:
+                port = None
+            elif r < 0.4:
+                port = rh.choice([0, 1, 9, 10, 99, 100, 999, 1000, 1023, 1024, 9999, 10000, 65534, 65535])
+            else:
+                port = rh.randrange(65536)
+            dmode, dflt = rh.choice(DEFAULT_MODES)
+            if dmode != 'omit' and rh.random() < 0.5:
+                dflt = rh.randrange(65536)
+            bracket = 'escape'
+            if fam.startswith('ipv6') and rh.random() < 0.15:
+                bracket = 'manual' if port is not None or rh.random() < 0.5 else 'none'
+            take(dict(kind='hp', host=host, family=fam, port=port, bracket=bracket, dmode=dmode, default=dflt))
 
     # ================= URLs =================
     grid_paths = ['', '/mypath', '/v2.0/']
@@ -959,9 +969,9 @@ def run(ctx):
         for af in (True, False):
             emit(dict(kind='url', scheme='', netloc=None, path=u, query=None, frag=None, pairs=None,
                       allow_fragments=af, default_scheme=None, wellformed=False), 'url/ill-formed')
-    ru = ctx.rng('urls')
-    for i in range(ctx.pick(90000, 1800000)):
-        emit(random_url_case(ru, i), 'url/random')
+    for ru, span in blocks('urls', ctx.pick(90000, 1800000)):
+        for i in span:
+            take(random_url_case(ru, i), 'url/random')
 
 
 LEVEL_TEXT = ('Exploration with constructive oracles: EUI-64 inputs are composed from (address int, prefix length, '
